@@ -11,6 +11,8 @@ chain divergenceTerm(coef * gradientTerm/linearMean/upwindMean(phi)) produces fo
  E3u convectionUpwindTerm(u,uu)  == divergenceTerm(u*upwindMean(phi,uu))       (uu != 0 on the faces involved)
  E4  TVD right-hand side vanishes identically for a zero limiter
  E5  unit limiter, uniform grid: M_upwind*phi - RHS_tvd == M_central*phi  (rows away from the boundary)
+ E4u/E5u  the same two identities when the optional upwind-direction field u_upwind is passed to both the upwind matrix
+     and the TVD right-hand side (faces with u_upwind == 0 excluded) - the dispatchers must hand it on for every class
 """
 from __future__ import annotations
 from ..alg import Rat, atom_id, atom_key, is_zero, case_zero, indicator_groups, fmt_rat, map_atoms
@@ -28,6 +30,7 @@ RULES = {
     'E3u': 'upwind row with separate upwind field == div(u*upwindMean(phi,uu)) for uu != 0',
     'E4': 'TVD RHS == 0 for FL == 0',
     'E5': 'FL == 1 on uniform grids: upwind - TVD == central',
+    'E4u': 'E4 with a separate upwind-direction field', 'E5u': 'E5 with a separate upwind-direction field (u_upwind != 0)',
 }
 ASSUMPTIONS = ['exact arithmetic (rounding not decided)',
                'E3u: faces with u_upwind exactly 0 are excluded (tie), as stated in DESIGN.md',
@@ -163,7 +166,6 @@ def job(args):
     fi = sm.func('advection', impl)
     units.add(f"advection.{impl}")
     construct = f"advection.{impl}"
-    tv = w.call('advection', 'convectionTVDupwindRHSTerm', u, phi, OpaqueFn('FL'))
 
     def fl_to(c):
         def fn(key):
@@ -171,29 +173,42 @@ def job(args):
                 return Rat.const(c)
             return None
         return fn
-    for P in cells:
-        v = w.vector_at(tv, P)
-        has_fl = any(isinstance(atom_key(a), tuple) and atom_key(a)[0] == 'fn' and atom_key(a)[1] == 'FL' for a in v.atoms())
-        v0 = map_atoms(v, fl_to(0))
-        ob('E4', construct, is_zero(v0), f"cell {F.cstr(P)}: TVD RHS with FL=0 is {fmt_rat(v0, 8)}" if not is_zero(v0) else f"cell {F.cstr(P)} (limiter atoms present: {has_fl})", fi.loc())
+    # ---- E4 / E4u: zero limiter (with and without a separate upwind-direction field)
+    for rule, extra in (('E4', ()), ('E4u', (uu,))):
+        try:
+            tv = w.call('advection', 'convectionTVDupwindRHSTerm', u, phi, OpaqueFn('FL'), *extra)
+        except AbstractRaise as e:
+            ob(rule, construct, False, f"raises {e.exc}: {e.msg}", fi.loc())
+            continue
+        for P in cells:
+            v = w.vector_at(tv, P)
+            has_fl = any(isinstance(atom_key(a), tuple) and atom_key(a)[0] == 'fn' and atom_key(a)[1] == 'FL' for a in v.atoms())
+            v0 = map_atoms(v, fl_to(0))
+            ob(rule, construct, is_zero(v0), f"cell {F.cstr(P)}: TVD RHS with FL=0 is {fmt_rat(v0, 8)}" if not is_zero(v0) else f"cell {F.cstr(P)} (limiter atoms present: {has_fl})", fi.loc())
     if sizes:
         return dict(obs=obs, units=sorted(units), samples=samples, funcs=sorted(w.interp.funcs_seen))
-    # ---- E5 uniform grid
+    # ---- E5 / E5u uniform grid
     wu = World(sm, cls, uniform=True)
     phiu = wu.cell_variable('phi')
     uu_ = wu.face_variable('u')
-    Mup = wu.call('advection', 'convectionUpwindTerm', uu_)
-    Mce = wu.call('advection', 'convectionTerm', uu_)
-    tvu = wu.call('advection', 'convectionTVDupwindRHSTerm', uu_, phiu, OpaqueFn('FL'))
+    dir_ = wu.face_variable('uu')
     P = tuple(wu.t)
-    if isinstance(Mup, ASparse) and isinstance(Mce, ASparse) and not Mup.issues and not Mce.issues:
-        lhs = apply_row(wu.matrix_row(Mup, P), 'phi') - map_atoms(wu.vector_at(tvu, P), fl_to(1))
-        rhs = apply_row(wu.matrix_row(Mce, P), 'phi')
-        d = lhs - rhs
-        ok = is_zero(d)
-        ob('E5', construct, ok, f"generic cell: upwind - TVD(FL=1) - central = {fmt_rat(d, 8)}" if not ok else 'generic cell, uniform spacing', fi.loc())
-    else:
-        ob('E5', construct, False, 'matrix builders have layout issues', fi.loc())
+    for rule, extra in (('E5', ()), ('E5u', (dir_,))):
+        try:
+            Mup = wu.call('advection', 'convectionUpwindTerm', uu_, *extra)
+            Mce = wu.call('advection', 'convectionTerm', uu_)
+            tvu = wu.call('advection', 'convectionTVDupwindRHSTerm', uu_, phiu, OpaqueFn('FL'), *extra)
+        except AbstractRaise as e:
+            ob(rule, construct, False, f"raises {e.exc}: {e.msg}", fi.loc())
+            continue
+        if isinstance(Mup, ASparse) and isinstance(Mce, ASparse) and not Mup.issues and not Mce.issues:
+            lhs = apply_row(wu.matrix_row(Mup, P), 'phi') - map_atoms(wu.vector_at(tvu, P), fl_to(1))
+            rhs = apply_row(wu.matrix_row(Mce, P), 'phi')
+            d = lhs - rhs
+            ok = is_zero(d) if not extra else zero_excluding_ties(d, 'uu')
+            ob(rule, construct, ok, f"generic cell: upwind - TVD(FL=1) - central = {fmt_rat(d, 8)}" if not ok else 'generic cell, uniform spacing', fi.loc())
+        else:
+            ob(rule, construct, False, 'matrix builders have layout issues', fi.loc())
     return dict(obs=obs, units=sorted(units), samples=samples, funcs=sorted(w.interp.funcs_seen | wu.interp.funcs_seen))
 
 
